@@ -466,15 +466,20 @@ func (e *Engine) VerifyFunc(key string) (res *FuncResult) {
 	for _, b := range fn.Blocks {
 		res.NInstr += len(b.Instrs)
 	}
+	bodyCheckOnly := false
 	fr := fc.newFrame(fn, nil, "")
 	sp := fr.spec
 	res.HasContract = sp != nil
 	if sp != nil {
 		e.db.UsedKeys["func:"+key] = true
-		if sp.Kind == "assume" || len(sp.ClausesOf("trusted")) > 0 {
+		if sp.Kind == "assume" || (len(sp.ClausesOf("trusted")) > 0 && len(sp.ClausesOf("bodycheck")) == 0) {
 			res.Err = "function has an assumed / trusted contract and cannot be listed as verified: " + key
 			return
 		}
+		// `trusted` + `bodycheck`: the contract stays an ASSUMPTION towards callers (typically the frame of user code
+		// the function runs is abstracted), but the body is still executed for its safety and call-site (callspec)
+		// obligations; its `post` and `frame` obligations are not generated - they are what is trusted
+		bodyCheckOnly = len(sp.ClausesOf("trusted")) > 0
 		fc.checkOverflow = sp.Has("check", "overflow")
 	}
 	st := &State{reach: TTrue, heaps: map[string]*Term{}, ghosts: map[string]*Term{}}
@@ -533,6 +538,14 @@ func (e *Engine) VerifyFunc(key string) (res *FuncResult) {
 		st.ghosts["relsd"] = fc.relsdInit()
 	}
 	fr.entry = st.clone()
+	if sp != nil && bodyCheckOnly {
+		// assumptions of the body check that are NOT demanded of the callers (recorded in the evidence)
+		for _, c := range sp.ClausesOf("assumes") {
+			ev := fr.evalCtx(st, st)
+			fc.sc.Assert(fr.safeEvalBool(ev, c))
+			fc.note("bodycheck of " + shortName(key) + " assumes (not checked at its call sites): " + c.Text)
+		}
+	}
 	if sp != nil {
 		for _, c := range sp.ClausesOf("requires") {
 			ev := fr.evalCtx(st, st)
@@ -572,10 +585,36 @@ func (e *Engine) VerifyFunc(key string) (res *FuncResult) {
 			fc.oblige(exit, "post", "", fr.safeEvalBool(ev, c), e.fset.Position(fn.Pos()), "postcondition: "+c.Text)
 		}
 	}
+	if sp != nil && bodyCheckOnly {
+		// `bodyensures e`: checked at the exit of a body-checked trusted function (typically over ghost variables set
+		// by its callspecs); it is NOT part of what callers assume
+		for _, c := range sp.ClausesOf("bodyensures") {
+			ev := fr.evalCtx(exit, fr.entry)
+			ev.at = nil
+			fc.oblige(exit, "bodypost", "", fr.safeEvalBool(ev, c), e.fset.Position(fn.Pos()), "body obligation: "+c.Text)
+		}
+	}
 	// lock balance
 	if h, ok := exit.ghosts["held"]; ok && (sp == nil || (len(sp.ClausesOf("acquires")) == 0 && len(sp.ClausesOf("releases")) == 0)) {
 		h0 := fc.ghostInit("held", h.Sort)
 		fc.oblige(exit, "lock-balance", "", Eq(h, h0), e.fset.Position(fn.Pos()), "every lock taken is released on every path")
+	}
+	if bodyCheckOnly {
+		fc.note("trusted contract with `bodycheck`: body executed for its call-site, ownership, lock and `bodyensures` obligations only; pre / post / frame / safety of the body remain assumptions")
+		kept := fc.obls[:0]
+		for _, o := range fc.obls {
+			switch o.Kind {
+			case "callsite", "bodypost", "guard", "published", "lock", "lock-wait", "lockinv", "chan-close", "noreturn":
+				kept = append(kept, o)
+			}
+		}
+		fc.obls = kept
+	}
+	// `noreturn`: the function never returns normally (it always panics): the exit is unreachable, and says so
+	if sp != nil && len(sp.ClausesOf("noreturn")) > 0 {
+		fc.oblige(exit, "noreturn", "", TFalse, e.fset.Position(fn.Pos()), "the function never returns normally (declared noreturn)")
+		res.Covers = fc.covers
+		return
 	}
 	// vacuity: the exit must be reachable under the assumptions
 	cov := &Obligation{Name: fc.key + "/cover#exit", Kind: "cover", Func: fc.key, NFacts: len(fc.sc.facts), NegGoal: exit.reach.S, Script: fc.sc, Pos: e.fset.Position(fn.Pos()), Desc: "function exit reachable (assumptions not contradictory)"}
